@@ -3,7 +3,8 @@
 Monitor (model/history): a real mitmproxy.optmanager.OptManager with options of every supported type (bool, str, int,
 optional str/int, sequence of str; some added late), 2-5 listeners (both .changed receivers and subscribe()d callbacks)
 that reject by rule and 0-3 cascading listeners (subscribe()d callbacks that react to option A being set by a nested
-update of a derived option B := f(A), subscribed in random order before/after the rejecting ones) is driven with a random history: update / attribute assignment / set-specs (with and without defer) /
+update of a derived option B := f(A), subscribed in random order before/after the rejecting ones; listeners are bound
+methods of objects, some of which are dropped and garbage-collected or newly subscribed between updates) is driven with a random history: update / attribute assignment / set-specs (with and without defer) /
 update_defer / late add_option + process_deferred / reset / toggler / setter.  A model (vf/ref/c44_options.py) predicts for
 each operation whether it must be accepted or must raise and the values afterwards.  After every operation:
   outcome     accepted vs raised (and the error class) as predicted
@@ -13,9 +14,11 @@ each operation whether it must be accepted or must raise and the values afterwar
               happened, each listener's last observed value of every option in its scope equals the current value
   roundtrip   (every few operations) optmanager.save to a file + load_paths into fresh options reproduces every non-default value
 """
+import gc
 import os
 import shutil
 import tempfile
+import weakref
 from collections.abc import Sequence
 from typing import Optional
 
@@ -28,13 +31,13 @@ PROPERTY = "C44"
 LEVEL = "exploration"
 BUDGET = {"quick": (1500, 14), "thorough": (100_000, 200)}
 WORKERS = {"quick": 2, "thorough": 16}
-REQUIRED = ["outcome", "values", "typed", "listeners", "roundtrip", "rejected_after_cascade"]
+REQUIRED = ["outcome", "values", "typed", "listeners", "roundtrip", "rejected_after_cascade", "listener_dropped", "update_after_drop"]
 ENGINE = "direct"
 TECHNIQUE = "model-based history checking of the real OptManager plus save/load differential against the model"
 RULE = (
     "case = one random history of 5-40 operations on a fresh OptManager with 12 options of all six supported types (+4 added "
     "late, +2 derived) with 2-5 rule-based rejecting listeners and 0-3 cascading listeners (nested update of a derived option) in random "
-    "subscription order; values drawn from YAML-hostile strings (yes/no/null/~, numbers as strings, quotes, "
+    "subscription order, listeners dropped + gc.collect()ed (followed by an update every live subscriber hears) or added mid-history; values drawn from YAML-hostile strings (yes/no/null/~, numbers as strings, quotes, "
     "': ', '#', leading/trailing blanks, newlines, tabs, NEL/LS/PS, astral, empty), wrong types, unknown names; distinct = (operation "
     "kinds, outcomes seen, string classes used, listener set) signature; non-trivial = the history contains at least one accepted "
     "multi-name update, one raising operation and one save/load round trip with a non-default hostile string"
@@ -129,6 +132,7 @@ class Listener:
     def __init__(self, opts, rule):
         self.opts = opts
         self.rule = rule
+        self.name = rule.name
         self.calls = []  # (updated set, snapshot)
         self.lastseen = self.snapshot()
         if rule.scope is None:
@@ -163,6 +167,7 @@ class CascadeListener:
 
     def __init__(self, opts, cascade):
         self.cascade = cascade
+        self.name = cascade.name
         opts.subscribe(self.on_subscribed, [cascade.src])
 
     def on_subscribed(self, opts, updated):
@@ -235,10 +240,49 @@ def run_case(ctx, tmpdir):
             kw[n] = gen_value(r, kind, used, wrong=r.random() < p_wrong)
         return kw
 
+    forced_names = None  # after a listener was dropped: the next operation is an update that every live subscriber hears
     for step in range(n_ops):
         op = r.choice(["update"] * 8 + ["setattr"] * 2 + ["set"] * 4 + ["update_defer"] * 2 + ["add_late"] + ["process_deferred"] * 2
-                      + ["reset"] + ["toggle"] + ["setter"] + ["roundtrip"] * 3)
+                      + ["reset"] + ["toggle"] + ["setter"] + ["roundtrip"] * 3 + ["drop_listener"] * 2 + ["add_listener"] * 2)
+        if forced_names is not None:
+            op = "update"
         feats["ops"].add(op)
+        if op == "drop_listener":
+            # a component goes away: its callbacks are bound methods held only weakly by the option manager
+            victims = listeners + cascaders
+            if len(victims) > 1:
+                l = None
+                obj = r.choice(victims)
+                hist.append(f"drop_listener {obj.name}")
+                if obj in listeners:
+                    listeners.remove(obj)
+                    model.rules = [x for x in model.rules if x is not obj.rule]
+                else:
+                    cascaders.remove(obj)
+                    model.cascades = [x for x in model.cascades if x is not obj.cascade]
+                probe = weakref.ref(obj)
+                del obj, victims
+                gc.collect()
+                ctx.count("listener_dropped" if probe() is None else "listener_not_collected")
+                scopes = [x.rule.scope for x in listeners if x.rule.scope] + [[x.cascade.src] for x in cascaders]
+                forced_names = sorted({r.choice(sc) for sc in scopes}) or None
+            continue
+        if op == "add_listener":
+            have_r = {x.rule.name for x in listeners}
+            have_c = {x.cascade.name for x in cascaders}
+            cand = [("rule", x) for x in RULES if x.name not in have_r and not x.rejects(model.values)]
+            # a cascade may only join while its source is unset, otherwise "src set => dst derived" would not hold for the current state
+            cand += [("cascade", x) for x in CASCADES if x.name not in have_c and not model.values[x.src]]
+            if cand:
+                what, x = r.choice(cand)
+                if what == "rule":
+                    listeners.append(Listener(opts, x))
+                    model.rules = model.rules + [x]
+                else:
+                    cascaders.append(CascadeListener(opts, x))
+                    model.cascades = model.cascades + [x]
+                hist.append(f"add_listener {x.name}")
+            continue
         if op == "roundtrip":
             roundtrip(ctx, r, opts, model, path, hist, feats)
             hist.append("roundtrip")
@@ -266,7 +310,11 @@ def run_case(ctx, tmpdir):
             return out
 
         if op in ("update", "setattr", "toggle", "setter"):
-            if op == "update":
+            if op == "update" and forced_names is not None:
+                kw = {n: gen_value(r, model.kinds[n], used) for n in forced_names}
+                forced_names = None
+                ctx.count("update_after_drop")
+            elif op == "update":
                 kw = make_assign(p_wrong=0.08, p_unknown=0.08)
             elif op == "setattr":
                 kw = make_assign(p_wrong=0.1, p_unknown=0.0, k=1)
